@@ -83,6 +83,9 @@ Rest(k) == SubSeq(acc[k], Len(rd[k]) + 1, Len(acc[k]))     \* accepted, not yet 
 Clean(c) == ~aborted[c] /\ ~tainted[c]
 \* something is still owed to the reader of direction k
 Owed(k) == rd[k] # acc[k] \/ (wclosed[k] /\ ~eof[k])
+\* a listener accepted attempt c, but its connector gave up before its connect completed:
+\* the accepted stream has no successful connect to be paired with
+Orphaned(c) == att[c].st = "cancelled" /\ att[c].accd /\ ~tainted[c]
 
 Explicit(a, b) == a # b /\ a \in Hosts /\ b \in Hosts /\ expl[<<a, b>>]
 
@@ -264,6 +267,10 @@ ReadFlags(c, k, n, res, got, peek) ==
             \* clause Stall: the link is healthy, nothing is in flight, the reader reads, the closes were
             \* graceful - yet accepted bytes (or the end-of-file) do not arrive
             Flag(~(n > 0 /\ quiet /\ Clean(c) /\ Owed(k)), "Stall")
+            \* clause Orphan: "each successful connect is matched by exactly one accepted stream": an accepted
+            \* stream whose connect never completed does not stay established - once nothing is in flight
+            \* its reader has been told (ConnectionReset), it does not wait for ever
+            \cup Flag(~(n > 0 /\ quiet /\ k[2] = 1 /\ Orphaned(c)), "Orphan")
       [] res = "reset" ->
             \* clause SpuriousReset: ConnectionReset only after an abortive close (or under partitions)
             Flag(~Clean(c), "SpuriousReset")
@@ -316,7 +323,9 @@ Present(c, s) == IF s = 1 THEN att[c].st # "none" ELSE att[c].accd
 HostOf(c, s)  == IF s = 1 THEN att[c].h ELSE att[c].dh
 Gone(k)       == hv[k].ex /\ ~hv[k].r /\ ~hv[k].w
 BothDropped(c) == Gone(<<c, 1>>) /\ Gone(<<c, 2>>)
-CountBound(h) == Cardinality({k \in CS : Present(k[1], k[2]) /\ HostOf(k[1], k[2]) = h /\ ~BothDropped(k[1])})
+\* (an orphaned accepted stream stops counting once nothing is in flight any more)
+CountBound(h) == Cardinality({k \in CS : /\ Present(k[1], k[2]) /\ HostOf(k[1], k[2]) = h /\ ~BothDropped(k[1])
+                                          /\ ~(quiet /\ k[2] = 2 /\ Orphaned(k[1]))})
 
 \* clause Reclaimed: "once both ends of a stream have been dropped it no longer counts as
 \* established on either host"
@@ -376,6 +385,7 @@ AcceptedDead  == "AcceptedDead" \notin bad
 AcceptOrder   == "AcceptOrder" \notin bad
 Mirror        == "Mirror" \notin bad
 Reclaimed     == "Reclaimed" \notin bad
+Orphan        == "Orphan" \notin bad
 ErrorKind     == "ErrorKind" \notin bad
 \* an undocumented panic of the code under test is not a behaviour any clause permits
 NoPanic       == "NoPanic" \notin bad
